@@ -547,6 +547,11 @@ def main():
     tx = extract_threads.extract()
     changed["Threads"] = extract_threads.emit(tx, write_if_changed)
     x["info"]["thread_skeleton_notes"] = tx["notes"]
+    import extract_config
+    extract_config.GEN = GEN
+    cx = extract_config.extract()
+    changed["ConfigSrc"] = extract_config.emit(cx, write_if_changed)
+    x["info"]["config_switches_in_source"] = {k: ("unrecognised" if v is None else v) for k, v in cx.items()}
     x["info"]["seq_program"] = [d["op"] + ("!" if d["rel"] else "") for d in tx["seq"]]
     x["info"]["sess_program"] = [d["op"] + ("!" if d["rel"] else "") for d in tx["sess"]]
     out = {"info": x["info"], "notes": x["notes"], "changed": changed,
